@@ -103,7 +103,26 @@ func c04(id string, op Op, ps []Pos) {
 
 func H_C04_alg_delegate_Q()   { c04("C04.alg.delegate", OpDelegate, shape3("shape")) }
 func H_C04_alg_undelegate_Q() { c04("C04.alg.undelegate", OpUndelegate, shapeActor("shape")) }
-func H_C04_alg_redelegate_Q() { c04("C04.alg.redelegate", OpRedelegate, shapeActor("shape")) }
+func H_C04_alg_redelegate_Q() { c04("C04.alg.redelegate", OpRedelegate, shapeRedel("shape")) }
+
+// shapeRedel: the actor on the source validator; optionally a co-delegator there, the actor's own
+// position on the destination, and ANOTHER delegator's position on the destination (whose value a
+// mispriced share transfer would change).
+func shapeRedel(name string) []Pos {
+	switch nd.Choice(name, 6) {
+	case 0:
+		return []Pos{{0, 0, 0}}
+	case 1:
+		return []Pos{{0, 0, 0}, {1, 0, 0}}
+	case 2:
+		return []Pos{{0, 0, 0}, {0, 1, 0}}
+	case 3:
+		return []Pos{{0, 0, 0}, {1, 0, 0}, {0, 1, 0}}
+	case 4:
+		return []Pos{{0, 0, 0}, {1, 1, 0}}
+	}
+	return []Pos{{0, 0, 0}, {1, 0, 0}, {0, 1, 0}, {1, 1, 0}}
+}
 
 // H_C04_cap: structural (exact arithmetic): a successful Undelegate/Redelegate(a) implies that a is at
 // most the token value reported for the shares that were removed.
